@@ -314,6 +314,9 @@ func (w *world) ensureInit(pkg *ssa.Package) {
 		}
 	}()
 	w.initDirect = initFn
+	if os.Getenv("SYMGO_TRACEINIT") != "" {
+		fmt.Fprintf(os.Stderr, "init %s\n", pkg.Pkg.Path())
+	}
 	w.callSSA(nil, 0, initFn, nil, nil)
 }
 
